@@ -47,6 +47,8 @@ fn dval(v: &str) -> Bytes {
     let n = match v {
         "a" => 5,
         "b" => 700,
+        // at the size from which the cache reads through a memory map ("large file")
+        "L" => 16 * 1024 * 1024 + 4321,
         _ => 5000,
     };
     Bytes::from(v.as_bytes()[..1].repeat(n))
@@ -99,7 +101,7 @@ fn exec_ops(routine: &str, root: &Path, ops: &[&str], state: &mut DriverState) -
             ("lru", "bump") => state.lru.as_mut().unwrap().bump_generation(),
             ("lru", "ckpt") => block_on(state.lru.as_mut().unwrap().checkpoint_to_disk()).map_err(|e| e.to_string())?,
             ("lru", "shutdown") => block_on(state.lru.as_mut().unwrap().shutdown()).map_err(|e| e.to_string())?,
-            ("disk", "put") => {
+            ("disk" | "diskbg", "put") => {
                 let c = state.disk.as_ref().unwrap();
                 block_on(c.put(SKey(p[1].to_string()), dval(p[2]))).map_err(|e| e.to_string())?;
             }
@@ -115,7 +117,7 @@ fn exec_ops(routine: &str, root: &Path, ops: &[&str], state: &mut DriverState) -
                 let key = crate::props::c04::ekey_n(&data);
                 block_on(state.dynamic.as_ref().unwrap().remove(&key)).map_err(|e| e.to_string())?;
             }
-            ("disk", "rm") => {
+            ("disk" | "diskbg", "rm") => {
                 let c = state.disk.as_ref().unwrap();
                 block_on(c.remove(&SKey(p[1].to_string()))).map_err(|e| e.to_string())?;
             }
@@ -161,6 +163,13 @@ pub fn driver_main(args: &[String]) -> i32 {
                 DiskCache::new(DiskCacheConfig::new(root.to_path_buf()).with_default_ttl(Duration::from_secs(3600)).with_subdirectories(false, 1))
                     .expect("disk cache"),
             );
+        }
+        // the constructor the multi-layer cache uses: periodic cleanup and sync tasks exist (they
+        // run on this thread's runtime, i.e. only while an operation is in progress; their first
+        // tick fires at once, the next ones after 30 s / 5 min, which no scenario lasts)
+        "diskbg" => {
+            let cfg = DiskCacheConfig::new(root.to_path_buf()).with_default_ttl(Duration::from_secs(3600)).with_subdirectories(false, 1);
+            st.disk = Some(block_on(async { DiskCache::new_with_background_tasks(cfg) }).expect("disk cache with background tasks"));
         }
         _ => return 2,
     }
@@ -248,7 +257,7 @@ pub fn observe(routine: &str, dir: &Path) -> Result<BTreeMap<String, String>, St
                     out.insert(format!("object-{v}"), format!("query={q} read={r}"));
                 }
             }
-            "disk" => {
+            "disk" | "diskbg" => {
                 let c: DiskCache<SKey> = DiskCache::new(DiskCacheConfig::new(dir.to_path_buf()).with_default_ttl(Duration::from_secs(3600)).with_subdirectories(false, 1))
                     .map_err(|e| format!("DiskCache::new: {e}"))?;
                 for k in DKEYS {
@@ -256,7 +265,7 @@ pub fn observe(routine: &str, dir: &Path) -> Result<BTreeMap<String, String>, St
                     let d = match v {
                         None => "None".to_string(),
                         Some(b) => {
-                            let known = ["a", "b", "c"].iter().find(|n| dval(n) == b);
+                            let known = ["a", "b", "c", "L"].iter().find(|n| dval(n) == b);
                             match known {
                                 Some(n) => format!("Some({n})"),
                                 None => format!("Some(<{} bytes, not a value that was ever put>)", b.len()),
@@ -359,6 +368,14 @@ fn scenarios(tier: Tier) -> Vec<Scenario> {
         for s in &dsave {
             v.push(mk("disk", p, s));
         }
+    }
+    // a value of the "large file" size class, and the instance built with its background tasks
+    v.push(mk("diskbg", "put:k:a", "put:k:L"));
+    if tier == Tier::Thorough {
+        v.push(mk("diskbg", "", "put:k:L"));
+        v.push(mk("diskbg", "put:k:L", "put:k:b"));
+        v.push(mk("diskbg", "put:k:a", "put:k:b"));
+        v.push(mk("disk", "put:k:a", "put:k:L"));
     }
     v
 }
@@ -545,6 +562,7 @@ pub fn replay(w: &serde_json::Value) -> i32 {
         "residency" => "residency",
         "lru" => "lru",
         "dyn" => "dyn",
+        "diskbg" => "diskbg",
         _ => "disk",
     };
     let rep = Report::new("C06", Tier::Quick, 0, Level::FaultEnumeration);
